@@ -56,3 +56,12 @@ Proof. exact key_exact_examples. Qed.
 (* after the fix both zeros have one key (before it, -0.0 sorted below 0 although compare calls them equal) *)
 Theorem C14_both_zeros_one_key : f64_key 9223372036854775808 = f64_key 0.
 Proof. reflexivity. Qed.
+
+(* ---- the byte walker itself (ComparableWalk.v: convert_to_comparable and its scalar / array / object helpers with
+   absolute offsets and early returns): on the encoding of any well-formed document it appends exactly the key of the
+   decoded tree, whatever the buffer held before. *)
+From JB Require Import Codec DispatchProofs ComparableWalk ComparableWalkProofs.
+Theorem C14_bytes_key : forall v buf, wfb v = true -> top_ok v ->
+  comparable_w (enc v) buf = (do k <- comparable_key (normalise v); Ok (buf ++ k)).
+Proof. exact comparable_w_enc. Qed.
+Print Assumptions C14_bytes_key.
